@@ -1,0 +1,120 @@
+//go:build verif
+
+package gnosisaccessnode
+
+import (
+	"context"
+	"sort"
+
+	"github.com/shutter-network/rolling-shutter/rolling-shutter/medley/chainsync"
+	syncclient "github.com/shutter-network/rolling-shutter/rolling-shutter/medley/chainsync/client"
+	syncevent "github.com/shutter-network/rolling-shutter/rolling-shutter/medley/chainsync/event"
+	"github.com/shutter-network/rolling-shutter/rolling-shutter/p2p"
+)
+
+// Accessors for the verification harness (family accessnode, growth stage of C06). Add-only:
+// nothing here changes behaviour, the file does not exist for the compiler without the verif tag.
+
+// VerifAccessnodeAssemble does what Start does with the node's own parts, on a messaging object
+// and an execution-node client handed in by the harness instead of p2p.New(config.P2P) and
+// chainsync.WithClientURL: the decryption keys handler over the node's Storage is registered on
+// the messaging object, and (client != nil) the chain sync client is built with the option list
+// of Start (keyper set manager, key broadcast contract, onNewKeyperSet, onNewEonKey).  Nothing is
+// started.
+func (node *GnosisAccessNode) VerifAccessnodeAssemble(
+	ctx context.Context,
+	messaging p2p.Messaging,
+	client syncclient.Client,
+) (*chainsync.Client, error) {
+	return node.VerifAccessnodeAssembleObserved(ctx, messaging, client, nil, nil)
+}
+
+// VerifAccessnodeAssembleObserved is VerifAccessnodeAssemble with the two chain handlers wrapped
+// by the harness (to record the arguments the chain sync client hands over and the Storage after
+// each call); a nil wrapper leaves the handler as it is.
+func (node *GnosisAccessNode) VerifAccessnodeAssembleObserved(
+	ctx context.Context,
+	messaging p2p.Messaging,
+	client syncclient.Client,
+	wrapKeyperSet func(syncevent.KeyperSetHandler) syncevent.KeyperSetHandler,
+	wrapEonKey func(syncevent.EonPublicKeyHandler) syncevent.EonPublicKeyHandler,
+) (*chainsync.Client, error) {
+	messaging.AddMessageHandler(NewDecryptionKeysHandler(node.config, node.storage))
+	if client == nil {
+		return nil, nil
+	}
+	var onKeyperSet syncevent.KeyperSetHandler = node.onNewKeyperSet
+	var onEonKey syncevent.EonPublicKeyHandler = node.onNewEonKey
+	if wrapKeyperSet != nil {
+		onKeyperSet = wrapKeyperSet(onKeyperSet)
+	}
+	if wrapEonKey != nil {
+		onEonKey = wrapEonKey(onEonKey)
+	}
+	return chainsync.NewClient(
+		ctx,
+		chainsync.WithClient(client),
+		chainsync.WithKeyperSetManager(node.config.Contracts.KeyperSetManager),
+		chainsync.WithKeyBroadcastContract(node.config.Contracts.KeyBroadcastContract),
+		chainsync.WithSyncNewKeyperSet(onKeyperSet),
+		chainsync.WithSyncNewEonKey(onEonKey),
+	)
+}
+
+// VerifAccessnodeOnNewKeyperSet is the handler Start gives to the chain sync client.
+func (node *GnosisAccessNode) VerifAccessnodeOnNewKeyperSet(ctx context.Context, ks *syncevent.KeyperSet) error {
+	return node.onNewKeyperSet(ctx, ks)
+}
+
+// VerifAccessnodeOnNewEonKey is the handler Start gives to the chain sync client.
+func (node *GnosisAccessNode) VerifAccessnodeOnNewEonKey(ctx context.Context, key *syncevent.EonPublicKey) error {
+	return node.onNewEonKey(ctx, key)
+}
+
+// VerifAccessnodeStorage returns the node's Storage.
+func (node *GnosisAccessNode) VerifAccessnodeStorage() *Storage { return node.storage }
+
+// VerifAccessnodeKeyperSet is the projection of one stored keyper set.
+type VerifAccessnodeKeyperSet struct {
+	Eon                   uint64
+	KeyperConfigIndex     int64
+	ActivationBlockNumber int64
+	Keypers               []string
+	Threshold             int32
+}
+
+// VerifAccessnodeSnapshot returns the whole content of the Storage: the marshalled eon keys and
+// the keyper sets, each sorted by eon.
+func (s *Storage) VerifAccessnodeSnapshot() (eons []uint64, keys [][]byte, sets []VerifAccessnodeKeyperSet) {
+	s.mu.Lock()
+	defer s.mu.Unlock()
+	for e := range s.eonKeys {
+		eons = append(eons, e)
+	}
+	sort.Slice(eons, func(i, j int) bool { return eons[i] < eons[j] })
+	for _, e := range eons {
+		k := s.eonKeys[e]
+		if k == nil {
+			keys = append(keys, nil)
+			continue
+		}
+		keys = append(keys, k.Marshal())
+	}
+	var se []uint64
+	for e := range s.keyperSets {
+		se = append(se, e)
+	}
+	sort.Slice(se, func(i, j int) bool { return se[i] < se[j] })
+	for _, e := range se {
+		ks := s.keyperSets[e]
+		if ks == nil {
+			sets = append(sets, VerifAccessnodeKeyperSet{Eon: e, KeyperConfigIndex: -1, Threshold: -1})
+			continue
+		}
+		sets = append(sets, VerifAccessnodeKeyperSet{
+			Eon: e, KeyperConfigIndex: ks.KeyperConfigIndex, ActivationBlockNumber: ks.ActivationBlockNumber,
+			Keypers: append([]string{}, ks.Keypers...), Threshold: ks.Threshold,
+		})
+	}
+	return eons, keys, sets
+}
